@@ -231,6 +231,26 @@ func genLifecycle(r *rand.Rand, id int, seed, tipUnix int64, p1 string, nextra i
 	return h
 }
 
+// genHiccup: the honest node closes its first k connections during the
+// version exchange (it is restarting / has no free slot) and is honest from
+// then on; alone or next to misbehaving nodes.  The client dials persistent
+// peers again and has to converge (seeded change C04-8: a persistent peer
+// that never completed a handshake was not retried).
+func genHiccup(r *rand.Rand, id int, seed, tipUnix int64, k, nmis int, pick []int) Hist {
+	h := gen(r, id, seed, tipUnix, false, nmis, pick)
+	for i := range h.Nodes {
+		n := &h.Nodes[i]
+		if n.Chain == "main" && reflect.DeepEqual(n.B, ns.Behaviour{}) {
+			n.B.DropHandshakes = k
+			break
+		}
+	}
+	h.Kinds = append(h.Kinds, fmt.Sprintf("handshake-hiccup-%d", k))
+	// connection retries after 0.4 s, 0.8 s, ... instead of 5 s, 10 s, ...
+	h.RetryMs = 400
+	return h
+}
+
 func idx(name string) int {
 	for i, m := range misList {
 		if m.name == name {
@@ -293,9 +313,10 @@ func caseTerm(h *Hist) string {
 			lighter = true
 		}
 		// the honest node: follows the main chain, default behaviour (a
-		// handshake delay only fixes the connection order), stays
+		// handshake delay only fixes the connection order, dropped first
+		// handshakes are a connection hiccup), stays
 		plain := n.B
-		plain.HandshakeDelayMs = 0
+		plain.HandshakeDelayMs, plain.DropHandshakes = 0, 0
 		if honest < 0 && n.Chain == "main" && !leaves[i] && reflect.DeepEqual(plain, ns.Behaviour{}) {
 			honest = i
 		}
@@ -368,7 +389,11 @@ func main() {
 		// a sync candidate leaves, then the (silent) sync peer leaves: the
 		// client must not pick the dead candidate (seeded change C04-2)
 		hs = append(hs, genLifecycle(c.Rng(a.Seed, 906), 6, a.Seed, tip, "silent-headers", 0))
-		n, nlong := 8, 1
+		// the honest node's first connection breaks between connect and
+		// verack: alone, and next to a misbehaving node (seeded change C04-8)
+		hs = append(hs, genHiccup(c.Rng(a.Seed, 907), 7, a.Seed, tip, 1, 0, nil))
+		hs = append(hs, genHiccup(c.Rng(a.Seed, 908), 8, a.Seed, tip, 2, 1, []int{idx("lighter-fork")}))
+		n, nlong := 10, 1
 		if a.Tier == "thorough" {
 			n, nlong = 130, 16
 		}
@@ -378,6 +403,11 @@ func main() {
 				// peer-lifecycle orders: every fourth random scenario
 				p1 := []string{"silent-headers", "silent-headers", "silent-all", "disconnecting", "hdr-wrongprev", "no-cf-bit"}[r.Intn(6)]
 				hs = append(hs, genLifecycle(r, 100+i, a.Seed, tip, p1, r.Intn(2)))
+				continue
+			}
+			if i >= nlong && i%4 == 2 {
+				// connection hiccups of the honest node: every fourth random scenario
+				hs = append(hs, genHiccup(r, 100+i, a.Seed, tip, 1+r.Intn(2), r.Intn(3), nil))
 				continue
 			}
 			hs = append(hs, gen(r, 100+i, a.Seed, tip, i < nlong, r.Intn(4), nil))
